@@ -12,6 +12,39 @@ T0 = datetime.datetime(2023, 1, 1, tzinfo=datetime.timezone.utc)
 MS = 1000       # model time unit: milliseconds
 
 
+class FoldZone(datetime.tzinfo):
+    """A time zone that observes daylight saving time until a given instant: one hour ahead of UTC before it, on UTC from
+    then on, so the wall-clock hour that follows the transition happens twice (PEP 495 fold).  Every event gets its own
+    instance: datetimes that share a tzinfo object are compared by their wall-clock fields, which is not what the code
+    under test is asked to do."""
+    HOUR = datetime.timedelta(hours=1)
+
+    def __init__(self, transition_utc):
+        self._t = transition_utc.replace(tzinfo=None)
+
+    def utcoffset(self, dt):
+        wall = dt.replace(tzinfo=None)
+        if wall < self._t:
+            return self.HOUR
+        if wall >= self._t + self.HOUR:
+            return datetime.timedelta(0)
+        return datetime.timedelta(0) if dt.fold else self.HOUR
+
+    def dst(self, dt):
+        return self.utcoffset(dt)
+
+    def tzname(self, dt):
+        return "FOLD"
+
+    def fromutc(self, dt):
+        u = dt.replace(tzinfo=None)
+        if u < self._t - self.HOUR:
+            return (u + self.HOUR).replace(tzinfo=self)
+        if u < self._t:
+            return (u + self.HOUR).replace(tzinfo=self, fold=0)
+        return u.replace(tzinfo=self, fold=1 if u < self._t + self.HOUR else 0)
+
+
 def ms(dt):
     d = dt - T0
     return int(round(d.total_seconds() * MS))
@@ -62,7 +95,11 @@ async def _run(loop, sc):
                     delay = at / MS - loop.time()
                     if delay > 0:
                         await asyncio.sleep(delay)
-                    self.src.push(Ev(T0 + datetime.timedelta(milliseconds=when), eid, dur))
+                    stamp = T0 + datetime.timedelta(milliseconds=when)
+                    if sc.get("fold_ms") is not None and self.i in sc.get("fold_srcs", []):
+                        # this feed stamps its events in a zone whose daylight saving time ends during the scenario
+                        stamp = stamp.astimezone(FoldZone(T0 + datetime.timedelta(milliseconds=sc["fold_ms"])))
+                    self.src.push(Ev(stamp, eid, dur))
                     log.append(("arrive", self.i, when, eid, ms(fake_now())))
 
         def when_dt(when_ms, jid):
@@ -168,6 +205,8 @@ def run_scenario(sc):
     alog.setLevel(logging.CRITICAL + 1)
     try:
         return vloop.run_virtual(_run, sc)
+    except vloop.Livelock as ex:
+        return [], "livelock:" + str(ex)
     finally:
         import gc
         gc.collect()
@@ -371,8 +410,14 @@ def gen_scenario(rnd, model=False):
     for fs in bev.values():
         for f in fs:
             job_tz[str(f[1])] = rnd.choice([0, 0, -300, 330])
+    fold_ms, fold_srcs = None, []
+    if rnd.random() < 0.3:
+        # a feed in a zone whose daylight saving time ends in the middle of the scenario
+        fold_ms = rnd.choice([100, 250, 400])
+        fold_srcs = [i for i in range(n_src) if rnd.random() < 0.7] or [0]
     return {"sources": sources, "jobs": jobs, "bev": bev, "raise": rz, "n_idle": rnd.choice([0, 1, 2]),
-            "mc": 50 if model else rnd.choice([1, 2, 5, 50]), "end": end, "job_tz": job_tz}
+            "mc": 50 if model else rnd.choice([1, 2, 5, 50]), "end": end, "job_tz": job_tz,
+            "fold_ms": fold_ms, "fold_srcs": fold_srcs}
 
 
 def gen_stale(rnd, n=150):
